@@ -33,6 +33,7 @@ import (
 	"github.com/keep-network/keep-core/pkg/protocol/state"
 	"github.com/keep-network/keep-core/pkg/verifshim/venum"
 	"github.com/keep-network/keep-core/pkg/verifshim/vrep"
+	"github.com/keep-network/keep-core/pkg/verifshim/vsched"
 )
 
 // ---- environment fakes ----
@@ -84,12 +85,25 @@ type c01Cfg struct {
 	Corrupt []int `json:"corrupt"`
 	// Operators[i] is the operator holding seat i+1 (nil: one operator per seat).
 	Operators []int `json:"operators,omitempty"`
+	// Plan fixes the behaviour of corrupt members in given phases ("m4.commitment" ->
+	// option name) without spending deviations: a joint plan of the corrupt coalition on
+	// top of which the bounded exploration runs. Used by the quick tier to reach
+	// two-member interactions that otherwise need two deviations.
+	Plan map[string]string `json:"plan,omitempty"`
 }
 
 func (c c01Cfg) String() string {
 	s := fmt.Sprintf("n=%d,t=%d,corrupt=%v", c.N, c.T, c.Corrupt)
 	if c.Operators != nil {
 		s += fmt.Sprintf(",operators=%v", c.Operators)
+	}
+	if len(c.Plan) > 0 {
+		var ks []string
+		for k, v := range c.Plan {
+			ks = append(ks, k+"="+v)
+		}
+		sort.Strings(ks)
+		s += ",plan=" + strings.Join(ks, "+")
 	}
 	return s
 }
@@ -423,6 +437,17 @@ func (run *c01Run) options(j int, st state.SyncState, outs []c01Out) []c01Option
 				return []c01Out{mut(m), {comMsg, false}}
 			})
 		}
+		for _, v := range cfg.Corrupt {
+			v := v
+			if v == j {
+				continue
+			}
+			add(fmt.Sprintf("inconsistentSharesFor%d", v), func(o []c01Out) []c01Out {
+				m := c01CopyShares(sharesMsg)
+				badShare(m, v)
+				return []c01Out{mut(m), {comMsg, false}}
+			})
+		}
 		add("inconsistentSharesForAll", func(o []c01Out) []c01Out {
 			m := c01CopyShares(sharesMsg)
 			for _, v := range others {
@@ -689,10 +714,23 @@ func (run *c01Run) step() bool {
 		}
 		if m.corrupt && len(outs) > 0 {
 			opts := run.options(i, m.st, outs)
-			if len(opts) > 1 {
-				k := run.c.Deviate(len(opts), fmt.Sprintf("m%d.%s", i, c01PhaseName(m.st)))
+			label := fmt.Sprintf("m%d.%s", i, c01PhaseName(m.st))
+			if forced, ok := cfg.Plan[label]; ok {
+				found := false
+				for _, o := range opts {
+					if o.name == forced {
+						outs = o.apply(outs)
+						found = true
+						break
+					}
+				}
+				if !found {
+					run.note("plan option %s=%s not available", label, forced)
+				}
+			} else if len(opts) > 1 {
+				k := run.c.Deviate(len(opts), label)
 				if k != 0 {
-					run.note("m%d.%s=%s", i, c01PhaseName(m.st), opts[k].name)
+					run.note("%s=%s", label, opts[k].name)
 				}
 				outs = opts[k].apply(outs)
 			}
@@ -822,8 +860,25 @@ type c01Replay struct {
 	Bound  int    `json:"bound"`
 }
 
+// c01Cur is the chooser of the run in progress (one run at a time per process): the
+// iteration order of the accusation / revealed-key maps inside protocol.go is routed to
+// it through vsched.MapOrder; any non-ascending order costs one deviation (maps with two
+// or more entries only occur once a corrupt member deviated).
+var c01Cur *venum.C
+
+func init() {
+	vsched.MapChooser = func(n int, label string) int {
+		if c01Cur == nil {
+			return 0
+		}
+		return c01Cur.Deviate(n, label)
+	}
+}
+
 // c01Execute runs one script and evaluates the C01 and C02 oracles.
 func c01Execute(r01, r02 *vrep.R, cfg c01Cfg, c *venum.C, bound int) {
+	c01Cur = c
+	defer func() { c01Cur = nil }()
 	run := &c01Run{cfg: cfg, c: c, r: r01, members: make([]*c01Member, cfg.N+1)}
 	seed := big.NewInt(12345)
 	ops := make([]chain.Address, cfg.N)
@@ -1070,12 +1125,24 @@ func c01Configs(thorough bool) []c01Cfg {
 	}
 	addAll(3, 1, 1)
 	addAll(4, 1, 1)
+	plans := []c01Cfg{
+		// 4 sends 2 a bad share; 2 (running the honest code) accuses 4 and adds a false
+		// accusation of honest member 1 in the same message
+		{N: 5, T: 2, Corrupt: []int{2, 4}, Plan: map[string]string{"m4.commitment": "inconsistentSharesFor2", "m2.commitmentsVerification": "falselyAccuse1"}},
+		// both fall silent after qualification: two individual keys must be reconstructed
+		{N: 5, T: 2, Corrupt: []int{2, 4}, Plan: map[string]string{"m2.pointsShare": "silent", "m4.pointsShare": "silent"}},
+		// selective points from 2, silent accuser 4
+		{N: 5, T: 2, Corrupt: []int{2, 4}, Plan: map[string]string{"m2.pointsShare": "pointsValidOnlyFor[1 3]", "m4.pointsValidation": "silent"}},
+	}
 	if thorough {
 		addAll(5, 2, 2)
+		cfgs = append(cfgs, plans...)
 		// two seats of one (corrupt) operator
 		cfgs = append(cfgs, c01Cfg{N: 5, T: 2, Corrupt: []int{2, 3}, Operators: []int{1, 2, 2, 4, 5}})
 	} else {
 		cfgs = append(cfgs, c01Cfg{N: 5, T: 2, Corrupt: []int{2, 4}})
+		// joint plans of the two corrupt members (each explored with <=1 further deviation)
+		cfgs = append(cfgs, plans...)
 	}
 	return cfgs
 }
@@ -1114,14 +1181,16 @@ func c01Main(t *testing.T, id string) {
 		if len(cfg.Corrupt) == 0 {
 			bound = 1 // only delivery orders can deviate
 		}
-		st := venum.Explore(venum.Options{Bound: bound, Workers: vrep.Workers(), Stop: r.Expired}, func(c *venum.C) {
+		shard, shards := r.Shard()
+		st := venum.Explore(venum.Options{Bound: bound, Workers: 1, Shard: shard, Shards: shards, Stop: r.Expired}, func(c *venum.C) {
 			c01Execute(r01, r02, cfg, c, bound)
 			r.Eval(1)
 			if c.Used() > 0 {
-				r.Distinct(cfg.String() + "|" + c.Trace())
+				r.Distinct(cfg.String() + "|" + fmt.Sprint(c.Script()))
 			}
 		})
-		r.Set(fmt.Sprintf("cfg%02d", ci), fmt.Sprintf("%s bound=%d runs=%d maxpoints=%d complete=%v", cfg, bound, st.Runs, st.MaxPoints, !st.Stopped))
+		r.Set(fmt.Sprintf("cfg%02d", ci), fmt.Sprintf("%s bound=%d", cfg, bound))
+		r.Add(fmt.Sprintf("cfg%02d.runs", ci), st.Runs)
 		if st.Stopped {
 			r.Cap(fmt.Sprintf("%s bound %d not completed", cfg, bound))
 		}
